@@ -62,14 +62,15 @@ def run(facts, rep, tier):
                         ("R08.3", "slot time = receive time of this update", "P"), ("R08.4", "slot index = bit 54; fields 55-71 / 72-88", "P"),
                         ("R08.5", "NL table == closed form", "P"), ("R08.6", "zone equality guards the result", "N"), ("R08.7", "observer / haversine wiring", "N"),
                         ("R08.8", "distance stored whenever the position is (given an observer)", "N"),
-                        ("R08.9", "a slot's fields and its receive time are written together, whatever the row held before", "N")]:
+                        ("R08.9", "a slot's fields and its receive time are written together, whatever the row held before", "N"),
+                        ("R08.10", "the position depends on earlier row state only through the other CPR half", "N")]:
         rep.rule(rid, txt, k)
     out = k2_results(facts, tier)
     results = out["results"]
     P = sel(results, "P")
     if len(P) < 8:
         raise Broken("C08: position contexts missing")
-    n1 = n2 = n3 = n4 = n8 = n9 = 0
+    n1 = n2 = n3 = n4 = n8 = n9 = n10 = 0
     for r in P:
         if not accepted(r):
             raise Broken("C08: %s not accepted" % r.ctx["label"])
@@ -202,6 +203,32 @@ def run(facts, rep, tier):
         rep.oblige(ok, ("slot-time", lab))
         if not ok:
             rep.add(Finding("R08.3", "cpr_time slot store (%s path)" % path_, "context '%s': cpr_time[%d] := %s" % (lab, F, [repr(v)[:60] for _, v, _ in sts]), None))
+        # R08.10: what is shown depends on the row's previous contents only through the other CPR half (its fields and its
+        # receive time): a decode steered by anything else the row remembered - the type code of an earlier frame, a flag set
+        # by another message - pairs or scales the halves by something that is not this frame
+        from ..absint.domain import deps_of as _deps_of
+        for f in POS_FIELDS:
+            for pth, v, pc, ctl in r.stores:
+                if not (pth and pth[0][1] == f):
+                    continue
+                n10 += 1
+                pre = set()
+                for d in list(_deps_of(v)) + list(ctl or ()):
+                    if isinstance(d, tuple) and d and d[0] == "ctl":
+                        d = d[1]
+                    if isinstance(d, tuple) and d and d[0] == "pre":
+                        pre.add(str(d[1]))
+                for t, tr in pc:
+                    st_ = show_term(t)
+                    if "pre(" in st_ and "ctl(" not in st_:
+                        import re as _re
+                        pre |= set(_re.findall(r"pre\(([^)]*)\)", st_))
+                bad10 = sorted(x for x in pre if x.split("[")[0] not in ("cpr_lat", "cpr_lon", "cpr_time"))
+                rep.oblige(not bad10, ("pos-pre", lab, f))
+                if bad10:
+                    rep.add(Finding("R08.10", "%s depends on earlier row state other than the CPR halves (%s path)" % (f, path_),
+                                    "context '%s': the store to %s depends on the row's previous %s - the position shown is not decided by "
+                                    "this frame and the other CPR half alone" % (lab, f, bad10), None))
         # R08.9 slot coherence: the receive time of a slot is the receive time of the fields in it.  The three stores to
         # slot F (fields 55-71, 72-88 and the time) happen under one and the same condition, and that condition does not
         # look at what the row held before (a frame that repeats the stored fields still refreshes the slot's time; a frame
@@ -236,6 +263,7 @@ def run(facts, rep, tier):
                             "context '%s': %s - the 10 s window is then measured from a time that is not the receive time of the stored fields"
                             % (lab, "; ".join(why9)), None))
     rep.instances("R08.9", n9, floor=8)
+    rep.instances("R08.10", n10, floor=30)
     rep.instances("R08.1", n1, floor=30)
     rep.instances("R08.2", n2, floor=8)
     rep.instances("R08.3", n3, floor=8)
